@@ -11,7 +11,7 @@ import (
 func init() {
 	register(&propDef{
 		ID:          "C11",
-		Explanation: "Decides, for templ.ComponentHandler (go/cfg dominance and reachability, object identity through go/types): R1 the buffered path renders into the pooled byte buffer, never into the ResponseWriter; R2 every effect on the ResponseWriter (Header, WriteHeader, Write, http.Error, delegation to the error handler) is dominated by the Render call; R3 the effects inside the `err != nil` branch are the only ones reachable when rendering failed — that branch returns on every path and no success effect is reachable from an error effect; R4 the success body is Bytes() of that same buffer, written exactly once, after the status; R5 ServeHTTP takes the buffered path unless StreamResponse is set; the pooled buffer is released only by a defer (no use after release). NOT decided: what a configured error handler itself writes.",
+		Explanation: "Decides, for templ.ComponentHandler (go/cfg dominance and reachability, object identity through go/types): R1 the buffered path renders into the pooled byte buffer, never into the ResponseWriter; R2 every effect on the ResponseWriter (Header, WriteHeader, Write, http.Error, delegation to the error handler) is dominated by the Render call; R3 the effects inside the `err != nil` branch are the only ones reachable when rendering failed — that branch returns on every path and no success effect is reachable from an error effect; R4 the success body is Bytes() of that same buffer, written exactly once, after the status; R5 ServeHTTP takes the buffered path unless StreamResponse is set; the pooled buffer is released only by a defer (no use after release). R6 no function of templ or templ/runtime uses the memory of a pooled buffer after the buffer went back to the pool (a slice from Bytes() returned past a deferred release, or used after a direct release): the response body would be overwritten by another request's render. NOT decided: what a configured error handler itself writes.",
 		Assumptions: []string{"Component.Render writes only to the writer it is given"},
 		Trusted:     []string{"go/types", "x/tools go/packages, go/cfg"},
 		Run:         runC11,
@@ -41,7 +41,7 @@ func runC11(c *Ctx) {
 		return ok && info.ObjectOf(id) == wObj
 	}
 	// Render call and its writer argument
-	var render *ast.CallExpr
+	var render, renderInHelper *ast.CallExpr
 	directNodes(fd.Body, func(n ast.Node) bool {
 		if call, ok := n.(*ast.CallExpr); ok {
 			if se, ok := call.Fun.(*ast.SelectorExpr); ok && se.Sel.Name == "Render" && len(call.Args) == 2 {
@@ -50,17 +50,52 @@ func runC11(c *Ctx) {
 		}
 		return true
 	})
+	scope := fd // where the Render call and its buffer live
+	viaHelper := false
 	if render == nil {
-		c.viol("C11.R1", key+"|render-call", c.pos(fd.Pos()), "no Component.Render call in the buffered handler")
+		// the render may be delegated to a helper of the package: <bytes>, err := helper(ctx, component)
+		directNodes(fd.Body, func(n ast.Node) bool {
+			call, ok := n.(*ast.CallExpr)
+			if !ok || render != nil {
+				return true
+			}
+			fn := calleeOf(info, call)
+			if fn == nil || fn.Pkg() != p.Types {
+				return true
+			}
+			hfd := findFunc(p, "", fn.Name())
+			if hfd == nil {
+				return true
+			}
+			ast.Inspect(hfd.Body, func(m ast.Node) bool {
+				if hc, ok := m.(*ast.CallExpr); ok {
+					if se, ok := hc.Fun.(*ast.SelectorExpr); ok && se.Sel.Name == "Render" && len(hc.Args) == 2 {
+						render = call
+						scope = hfd
+						viaHelper = true
+						renderInHelper = hc
+					}
+				}
+				return true
+			})
+			return true
+		})
+	}
+	if render == nil {
+		c.viol("C11.R1", key+"|render-call", c.pos(fd.Pos()), "no Component.Render call in the buffered handler or in a helper it calls")
 		return
 	}
 	var bufObj types.Object
-	if id, ok := render.Args[1].(*ast.Ident); ok {
+	bufArg := render.Args[len(render.Args)-1]
+	if viaHelper {
+		bufArg = renderInHelper.Args[1]
+	}
+	if id, ok := bufArg.(*ast.Ident); ok {
 		bufObj = info.ObjectOf(id)
 	}
 	pooled := false
 	if bufObj != nil {
-		ast.Inspect(fd.Body, func(n ast.Node) bool {
+		ast.Inspect(scope.Body, func(n ast.Node) bool {
 			if as, ok := n.(*ast.AssignStmt); ok && len(as.Lhs) == 1 && len(as.Rhs) == 1 {
 				if lid, ok := as.Lhs[0].(*ast.Ident); ok && info.ObjectOf(lid) == bufObj {
 					if call, ok := as.Rhs[0].(*ast.CallExpr); ok {
@@ -73,8 +108,8 @@ func runC11(c *Ctx) {
 			return true
 		})
 	}
-	c.check(pooled && !isW(render.Args[1]), "C11.R1", key+"|renders-into-pooled-buffer", c.pos(render.Pos()), "Render(ctx, <buffer from GetBuffer()>)",
-		"the buffered handler renders into "+types.ExprString(render.Args[1])+" instead of a pooled byte buffer: a failing component leaves a partial document on the wire")
+	c.check(pooled && !isW(bufArg), "C11.R1", key+"|renders-into-pooled-buffer", c.pos(render.Pos()), "Render(ctx, <buffer from GetBuffer()>)",
+		"the buffered handler renders into "+types.ExprString(bufArg)+" instead of a pooled byte buffer: a failing component leaves a partial document on the wire")
 
 	// effects on the ResponseWriter
 	type effect struct {
@@ -113,8 +148,8 @@ func runC11(c *Ctx) {
 	// R3: the error branch
 	var errObj types.Object
 	ast.Inspect(fd.Body, func(n ast.Node) bool {
-		if as, ok := n.(*ast.AssignStmt); ok && len(as.Rhs) == 1 && as.Rhs[0] == ast.Expr(render) && len(as.Lhs) == 1 {
-			if id, ok := as.Lhs[0].(*ast.Ident); ok {
+		if as, ok := n.(*ast.AssignStmt); ok && len(as.Rhs) == 1 && as.Rhs[0] == ast.Expr(render) && len(as.Lhs) >= 1 {
+			if id, ok := as.Lhs[len(as.Lhs)-1].(*ast.Ident); ok {
 				errObj = info.ObjectOf(id)
 			}
 		}
@@ -237,6 +272,19 @@ func runC11(c *Ctx) {
 					}
 				}
 			}
+			if viaHelper {
+				// the helper's first result is the document
+				ast.Inspect(fd.Body, func(n ast.Node) bool {
+					if as, ok := n.(*ast.AssignStmt); ok && len(as.Rhs) == 1 && as.Rhs[0] == ast.Expr(render) && len(as.Lhs) == 2 {
+						if lid, ok := as.Lhs[0].(*ast.Ident); ok {
+							if aid, ok := ast.Unparen(arg).(*ast.Ident); ok && info.ObjectOf(aid) == info.ObjectOf(lid) {
+								good = true
+							}
+						}
+					}
+					return true
+				})
+			}
 		}
 		c.check(good, "C11.R4", key+"|body-is-rendered-buffer", c.pos(fd.Pos()), "the success body is Bytes() of the rendered buffer, written once",
 			"the success response does not write exactly Bytes() of the buffer that was rendered into")
@@ -258,13 +306,13 @@ func runC11(c *Ctx) {
 	}
 	// release deferred
 	deferred := false
-	for _, dc := range deferredCalls(fd.Body) {
+	for _, dc := range deferredCalls(scope.Body) {
 		if fn := calleeOf(info, dc); fn != nil && fullName(fn) == modPath+".ReleaseBuffer" {
 			deferred = true
 		}
 	}
 	nonDeferred := false
-	directNodes(fd.Body, func(n ast.Node) bool {
+	directNodes(scope.Body, func(n ast.Node) bool {
 		if _, ok := n.(*ast.DeferStmt); ok {
 			return false
 		}
@@ -283,23 +331,80 @@ func runC11(c *Ctx) {
 	if sfd == nil {
 		c.viol("C11.R5", "anchor-lost:ComponentHandler.ServeHTTP", "", "templ.ComponentHandler.ServeHTTP not found")
 	} else {
-		// if ch.StreamResponse { streamed; return } ; buffered
-		good := false
-		if len(sfd.Body.List) >= 2 {
-			_, plainField := ast.Unparen(is0cond(sfd)).(*ast.SelectorExpr)
-			if is, ok := sfd.Body.List[0].(*ast.IfStmt); ok && plainField && strings.HasSuffix(types.ExprString(is.Cond), ".StreamResponse") && blockAlwaysReturns(is.Body) {
-				streamedInIf := strings.Contains(nodeText(c.fset, is.Body), "ServeHTTPStreamed")
-				rest := ""
-				for _, st := range sfd.Body.List[1:] {
-					rest += nodeText(c.fset, st)
+		// every way out of ServeHTTP has gone through exactly one of the two handlers; the streamed one only under
+		// the StreamResponse flag
+		sfc := newFnCFG(sfd.Body, info)
+		var dispatch []*ast.CallExpr
+		var streamed, buffered []*ast.CallExpr
+		ast.Inspect(sfd.Body, func(n ast.Node) bool {
+			if call, ok := n.(*ast.CallExpr); ok {
+				if fn := calleeOf(info, call); fn != nil && fn.Pkg() == p.Types {
+					switch fn.Name() {
+					case "ServeHTTPStreamed":
+						streamed = append(streamed, call)
+						dispatch = append(dispatch, call)
+					case "ServeHTTPBuffered":
+						buffered = append(buffered, call)
+						dispatch = append(dispatch, call)
+					}
 				}
-				good = streamedInIf && strings.Contains(rest, "ServeHTTPBuffered") && !strings.Contains(rest, "ServeHTTPStreamed")
+			}
+			return true
+		})
+		why := ""
+		var exits []ast.Node
+		ast.Inspect(sfd.Body, func(n ast.Node) bool {
+			if r, ok := n.(*ast.ReturnStmt); ok {
+				exits = append(exits, r)
+			}
+			return true
+		})
+		if len(sfd.Body.List) > 0 {
+			if _, isRet := sfd.Body.List[len(sfd.Body.List)-1].(*ast.ReturnStmt); !isRet {
+				exits = append(exits, sfd.Body.List[len(sfd.Body.List)-1])
 			}
 		}
-		c.check(good, "C11.R5", funcKey(p, sfd)+"|buffered-unless-streaming", c.pos(sfd.Pos()), "ServeHTTP uses the buffered path unless StreamResponse is set",
-			"ServeHTTP no longer dispatches to the buffered path by default")
+		for _, ex := range exits {
+			handled := false
+			for _, d := range dispatch {
+				if sfc.dominates(d, ex) || (d.Pos() >= ex.Pos() && d.End() <= ex.End()) {
+					handled = true
+				}
+			}
+			if !handled {
+				why = "the exit at " + c.pos(ex.Pos()) + " is reached without ServeHTTPBuffered or ServeHTTPStreamed having been called: the client receives an empty 200 instead of the page, the 500 or the error handler's response"
+			}
+		}
+		inFlagBranch := func(call *ast.CallExpr) bool {
+			in := false
+			ast.Inspect(sfd.Body, func(n ast.Node) bool {
+				if is, ok := n.(*ast.IfStmt); ok && is.Body.Pos() <= call.Pos() && call.End() <= is.Body.End() {
+					if se, ok := ast.Unparen(is.Cond).(*ast.SelectorExpr); ok && se.Sel.Name == "StreamResponse" {
+						in = true
+					}
+				}
+				return true
+			})
+			return in
+		}
+		for _, sc := range streamed {
+			if !inFlagBranch(sc) {
+				why = "ServeHTTPStreamed is called outside the `if <handler>.StreamResponse` branch: responses are streamed (status and partial body committed before a render error is known) although buffering is the default"
+			}
+		}
+		for _, bc := range buffered {
+			if inFlagBranch(bc) {
+				why = "ServeHTTPBuffered is called under the StreamResponse flag"
+			}
+		}
+		if len(buffered) == 0 {
+			why = "ServeHTTP never calls ServeHTTPBuffered"
+		}
+		c.check(why == "", "C11.R5", funcKey(p, sfd)+"|buffered-unless-streaming", c.pos(sfd.Pos()), "every exit of ServeHTTP is dominated by one of the two handlers; the streamed one only under StreamResponse",
+			"ServeHTTP: "+why)
 	}
 	c.floor("C11.R3", 4)
+	pooledBufferLifetime(c, "C11.R6")
 }
 
 // blockAlwaysReturns: every path through the block ends in a return (if/else chains handled structurally).
@@ -321,11 +426,4 @@ func blockAlwaysReturns(b *ast.BlockStmt) bool {
 		return blockAlwaysReturns(last.Body) && blockAlwaysReturns(eb)
 	}
 	return false
-}
-
-func is0cond(fd *ast.FuncDecl) ast.Expr {
-	if is, ok := fd.Body.List[0].(*ast.IfStmt); ok {
-		return is.Cond
-	}
-	return nil
 }
